@@ -31,17 +31,18 @@ type SV struct {
 }
 
 type evalEnv struct {
-	e        *Enc
-	pkg      *types.Package
-	st       *State
-	old      *State
-	vars     map[string]SV
-	oldVars  map[string]SV
-	bound    map[string]SV
-	fn       *ssa.Function
-	depth    int
-	self     SV                    // for type contracts: the function value being called
-	typeVars map[string]types.Type // type parameters of a generic contract target bound to the instantiation
+	e           *Enc
+	pkg         *types.Package
+	st          *State
+	old         *State
+	vars        map[string]SV
+	oldVars     map[string]SV
+	calleeFresh bool // evaluating a callee's postcondition at a call site: fresh(x) means allocated by the callee
+	bound       map[string]SV
+	fn          *ssa.Function
+	depth       int
+	self        SV                    // for type contracts: the function value being called
+	typeVars    map[string]types.Type // type parameters of a generic contract target bound to the instantiation
 }
 
 func (env *evalEnv) clone() *evalEnv {
@@ -611,7 +612,20 @@ func (env *evalEnv) call(v *ast.CallExpr) SV {
 			if a.t.sort == "Slice" {
 				r = tb.SRef(a.t)
 			}
+			if env.calleeFresh {
+				// postcondition of a callee, assumed at the call site: the object was allocated by the callee, so it is
+				// none of this function's own allocations (small negative literals)
+				return SV{t: tb.Le(r, tb.Int(-100000)), typ: boolT}
+			}
 			return SV{t: tb.Lt(r, tb.Int(0)), typ: boolT}
+		case "calleefresh":
+			// allocated by a callee: distinct from everything that existed at entry and from this function's own allocations
+			a := env.eval(v.Args[0])
+			r := a.t
+			if a.t.sort == "Slice" {
+				r = tb.SRef(a.t)
+			}
+			return SV{t: tb.Le(r, tb.Int(-100000)), typ: boolT}
 		case "alive0":
 			a := env.eval(v.Args[0])
 			r := a.t
